@@ -42,6 +42,8 @@ def _cases(ck: Check, W, R):
     for p in gen.bracket_patterns(3 if quick else 4):
         cases.append((p, W.FORCEUNIX | (W._TRANSLATE if len(p) % 2 else 0), False))
         cases.append(('a' + p + 'b', W.FORCEUNIX | W.PATHNAME | W.EXTMATCH, len(p) % 3 == 0 and all(ord(c) < 256 for c in p)))
+    for k, p in enumerate(gen.bracket_escape_patterns(6 if quick else 7, 6 if quick else 8)):
+        cases.append((p, (W.FORCEUNIX, W.FORCEUNIX | W.PATHNAME, W.FORCEWIN)[k % 3], k % 5 == 0))
     for fl in (W.FORCEUNIX | W.EXTMATCH, W.FORCEUNIX | W.EXTMATCH | W._TRANSLATE | W.PATHNAME | W.DOTMATCH, W.FORCEWIN | W.PATHNAME | W.EXTMATCH | W.GLOBSTAR):
         for p in gen.token_sequences(3 if quick else 4):
             cases.append((p, fl, False))
@@ -84,6 +86,35 @@ def run(ck: Check) -> int:
         for d in sr.disagreements:
             pass
     ck.stream('K1-parse-text', s_k1)
+
+    def s_compile(sr):
+        import re as _re
+        sr.note = ('every regex the pass produces for the K1 cases (exhaustive short strings, bracket families incl. escaped range '
+                   'ends, parser-state token sequences, random/mutated strings) is handed to re.compile: failing = re.error')
+        seen = set()
+        for p, fl, isb in cases:
+            if (p, fl, isb) in seen:
+                continue
+            seen.add((p, fl, isb))
+            try:
+                text = W.WcParse(p.encode('latin-1') if isb else p, fl).parse()
+            except ValueError:
+                sr.histogram['ValueError (documented)'] = sr.histogram.get('ValueError (documented)', 0) + 1
+                continue
+            except Exception as e:  # noqa: BLE001
+                ck.report(Failing(f'WcParse.parse raised {type(e).__name__}: {e}', {'api': 'WcParse', 'pattern': p, 'flags': fl, 'bytes': isb},
+                                  'no exception', type(e).__name__), _attribute(e, p, ''))
+                continue
+            sr.evaluations += 1
+            try:
+                _re.compile(text)
+                sr.histogram['compiles'] = sr.histogram.get('compiles', 0) + 1
+            except (_re.error, RecursionError, OverflowError) as e:
+                ck.report(Failing(f'the regex emitted for {p!r} does not compile: {type(e).__name__}: {e}',
+                                  {'api': 'WcParse+re.compile', 'pattern': p, 'flags': fl, 'bytes': isb, 'regex': text if isinstance(text, str) else text.decode('latin-1')},
+                                  'compiles', f'{type(e).__name__}: {e}', 'wcmatch/_wcparse.py:_sequence'), _attribute(e, p, ''))
+        sr.distinct = len(seen)
+    ck.search('emitted-regex-compiles', s_compile)
 
     # ---- search: documented exceptions only, through the public APIs
     allowed = (W.PatternLimitException, SyntaxError, KeyError, TypeError, ValueError)   # KeyError = unicodedata.lookup; NOT LookupError (IndexError is one)
